@@ -110,21 +110,26 @@ def main(ctx, replay=None):
     trace_meta = {sc: [] for sc in sched.SCENARIOS}
     proj_failed = 0
     noninj = 0
-    for sc_run in sched.SCENARIOS + ("neardeg", "endsame", "rearranged", "constant"):
+    for sc_run in sched.SCENARIOS + ("neardeg", "neardeg5", "endsame", "rearranged", "constant"):
         # "neardeg": three different strain fractions of which two are 3e-4 apart (relative) - different for the code's task equality
         # (numpy.allclose, rtol 1e-5), so the problem instance is the generic one
+        # "neardeg5": the same with a separation of 3e-5 (just above that equality) and fractions that do not change along the volume grid
         # "endsame": two fraction FIELDS that agree at the first and the last volume and differ in between;
         # "rearranged": two fields holding the same values in another order along the volume grid.  Different fields, different tasks.
         # "constant": three different fractions that do not change along the volume grid (a cell compressing self-similarly)
-        sc = "generic" if sc_run in ("neardeg", "endsame", "rearranged", "constant") else sc_run
+        sc = "generic" if sc_run in ("neardeg", "neardeg5", "endsame", "rearranged", "constant") else sc_run
         case = draw_case(rng, nq=int(rng.integers(1, 4)), nat=int(rng.integers(1, 4)), low_t=False)
         while sc_run in ("endsame", "rearranged") and len(case["v"]) < 3:
             case = draw_case(rng, nq=int(rng.integers(1, 4)), nat=int(rng.integers(1, 4)), low_t=False)
         duck = DuckCalc(case)
         ntv = len(case["v"])
         strain = base_strain(rng, sc, ntv)
-        if sc_run == "constant":
+        if sc_run in ("constant", "neardeg5"):
             strain = numpy.tile(strain[0], (ntv, 1))
+        if sc_run == "neardeg5":
+            a, b = (0, 1) if rng.random() < 0.5 else (1, 2)
+            strain[:, b] = strain[:, a] * (1.0 + 3e-5)
+            strain = strain / strain.sum(axis=1, keepdims=True)
         if sc_run == "neardeg":
             a, b = (0, 1) if rng.random() < 0.5 else (1, 2)
             strain[:, b] = strain[:, a] * (1.0 + 3e-4 * rng.uniform(0.8, 1.2, ntv))
@@ -171,7 +176,7 @@ def main(ctx, replay=None):
             # (with a tiny heat capacity the adiabatic tensor is orders of magnitude larger than the isothermal one: its own scale)
             adi_scale = max([tensor_scale] + [float(numpy.max(numpy.abs(numpy.nan_to_num(numpy.asarray(v), posinf=0.0, neginf=0.0)))) for v in (adi_full or {}).values()])
 
-        for sn, seq in enumerate(seqs if sc_run in sched.SCENARIOS else seqs[::2]):
+        for sn, seq in enumerate(seqs if sc_run in sched.SCENARIOS else seqs[::4] if sc_run == "neardeg5" else seqs[::2]):
             nontrivial = len(seq) >= 2 or any(int(k[0]) >= 4 or int(k[1]) >= 4 for k in seq)
             ctx.count({"sc": sc_run, "seq": list(seq)}, nontrivial=nontrivial)
             # every third request goes to the task list of the previous request (resolve() on a used list starts over: Reset)
@@ -228,7 +233,7 @@ def main(ctx, replay=None):
                 traces[sc] += events
                 trace_meta[sc].append((len(traces[sc]), list(seq), info["projection"]))
         # (5b) only the strain FRACTIONS matter: the same field with every row multiplied by its own positive factor gives the same tensor
-        if sc_run in ("generic", "uniaxial", "neardeg"):
+        if sc_run in ("generic", "uniaxial", "neardeg", "neardeg5"):
             fac = rng.uniform(0.3, 4.0, (ntv, 1))
             full = [f"{i}{j}" for i, j in ALLKEYS]
             _e1, _t1, (iso_a, _a1), info_a = run(full)
